@@ -214,6 +214,14 @@ func main() {
 				}
 			})
 		}
+	case "sentinel":
+		// sa sentinel <relpkg> : survey end-key comparisons and their emptiness guards
+		prog, err := core.Load("/repo", nil, "")
+		if err != nil {
+			fmt.Fprintln(os.Stderr, err)
+			os.Exit(2)
+		}
+		rules.SentinelSurvey(prog, os.Args[2])
 	case "dump":
 		// sa dump <relpkg> <recv|-> <name> : print SSA of a function and its closures
 		prog, err := core.Load("/repo", nil, "")
